@@ -16,6 +16,7 @@ mod engine_b;
 mod pools;
 mod transcript;
 mod hashorder;
+mod hist;
 #[cfg(feature = "sr")]
 mod sr_quals;
 
